@@ -388,9 +388,14 @@ func (in *Interp) CallSync(fnv Value, args []Value) Value {
 		return res
 	}
 	for g.top != marker {
+		g.block = ""
 		in.step(g)
 		if g.done {
 			panic(inconclusive{"goroutine ended inside CallSync"})
+		}
+		if g.block != "" {
+			// a deferred function / call-back that blocks cannot be suspended by this interpreter
+			panic(inconclusive{"blocking operation (" + g.block + ") inside a synchronous call (deferred function or call-back)"})
 		}
 	}
 	g.top = saved
